@@ -1584,26 +1584,25 @@ theorem specTxWith_txc (env : Env) (txc txc' : Bool) (db : Db) (ctx : Ctx) (body
   rw [specTxWith_eq, specTxWith_eq]
   cases hx : ((specBody env db ctx body).accepted && preOk (specBody env db ctx body).ctx) <;> simp
 
-/-- Db.Batch: the model (which, as the code, registers no tx-complete listeners: last argument
-    `false`) against the spec of a transaction -/
+/-- Db.Batch (since cb70ebf it registers the tx-complete listeners exactly as Db.Update does)
+    against the spec of a transaction -/
 theorem dbBatch_agree (env : Env) (h : env.t = expectedReturns) (db : Db) (ctx : Ctx)
     (body : List Step) (hp : Propagating body) :
     TxAgree env (dbBatch env db ctx body)
       (if (specTxWith env true db ctx body).ok then specTxWith env true db ctx body
         else specTxWith env true db (specTxWith env true db ctx body).ctx body)
       (if (specBody env db ctx body).accepted && preOk (specBody env db ctx body).ctx then (specBody env db ctx body).flows
-        else (specBody env db (specBody env db ctx body).ctx body).flows) false := by
-  obtain ⟨a1, a2, _, _⟩ := attempt_refines env h false db ctx body hp
+        else (specBody env db (specBody env db ctx body).ctx body).flows) true := by
+  obtain ⟨a1, a2, _, _⟩ := attempt_refines env h true db ctx body hp
   obtain ⟨s1, s2⟩ := specTxWith_ok env true db ctx body
-  have first := attempt_agree env h false db ctx body hp 1 [] [] []
+  have first := attempt_agree env h true db ctx body hp 1 [] [] []
   simp only [dbBatch]
-  cases hres : (attempt env false db ctx body).res with
+  cases hres : (attempt env true db ctx body).res with
   | ok =>
     obtain ⟨hacc, hpo⟩ := a2.mp hres
     rw [hres] at first
     simp only [s1, hacc, hpo, Bool.and_self, if_true]
-    obtain ⟨t1, t2, t3, t4⟩ := specTxWith_txc env true false db ctx body
-    exact first.of_same t1 t2 t3 t4
+    exact first
   | err e =>
     have hn' : ((specBody env db ctx body).accepted && preOk (specBody env db ctx body).ctx) = false := by
       have hn : ¬((specBody env db ctx body).accepted = true ∧ preOk (specBody env db ctx body).ctx = true) := by
@@ -1611,8 +1610,7 @@ theorem dbBatch_agree (env : Env) (h : env.t = expectedReturns) (db : Db) (ctx :
       cases hx : (specBody env db ctx body).accepted <;> cases hy : preOk (specBody env db ctx body).ctx <;> simp_all
     simp only [s1, hn', Bool.false_eq_true, if_false, s2]
     rw [← a1]
-    obtain ⟨t1, t2, t3, t4⟩ := specTxWith_txc env true false db (attempt env false db ctx body).st.ctx body
-    exact (attempt_agree env h false db (attempt env false db ctx body).st.ctx body hp 2 _ _ _).of_same t1 t2 t3 t4
+    exact attempt_agree env h true db (attempt env true db ctx body).st.ctx body hp 2 _ _ _
 
 /-- the caller hands every operation error on (injected storage faults are allowed) -/
 def TxSpec.wellBehaved (tx : TxSpec) : Prop := Propagating tx.body
@@ -1620,7 +1618,7 @@ def TxSpec.wellBehaved (tx : TxSpec) : Prop := Propagating tx.body
 theorem runTx_agree (env : Env) (h : env.t = expectedReturns) (db : Db) (prevCtx : Ctx) (tx : TxSpec)
     (hw : tx.wellBehaved) :
     TxAgree env (runTx env db prevCtx tx) (specTx env db prevCtx tx) (txFlows env db prevCtx tx)
-      (tx.mode == .update) := by
+      true := by
   unfold runTx specTx txFlows
   cases hm : tx.mode with
   | update => exact dbUpdate_agree env h db _ tx.body hw
